@@ -251,7 +251,7 @@ class Spec:
 class Prop:
     id = "C19"
     lean_module = "MuduoVerif.Props.C19"
-    gen_engines = ["Rpc"]
+    gen_engines = ["Rpc", "RpcSkel"]
     drivers = ["rpc"]
     technique = ("Lean 4 invariant proofs over an atomic-step model of RpcChannel (any interleaving of caller threads and "
                  "the loop thread) + T1 extraction of RpcChannel.cc / RpcServer.cc / rpc.proto + differential run of the real "
@@ -295,6 +295,9 @@ class Prop:
     trusted_base = [
         "Lean 4.33.0 kernel; axioms allowed: propext, Classical.choice, Quot.sound",
         "vlib/gen/rpc.py (clang-14 JSON AST of RpcChannel.cc and RpcServer.cc, text of rpc.proto -> Generated/Rpc.lean)",
+        "vlib/gen/rpcskel.py (same AST -> Generated/RpcSkel.lean: statement skeletons of ~RpcChannel, CallMethod, onMessage, "
+        "onRpcMessage, doneCallback, RpcServer::onConnection) and the reading of Model/Rpc.lean written down in "
+        "Model/RpcSkelDecl.lean; the two are proved equal (statement_order_tied)",
         "hand-written Model/Rpc.lean (atomic steps, heap-cell events), tied by the differential run (harness/rpc_drv.cc vs drv_rpc)",
         "protobuf (generated stubs, parsing), std::map, muduo's TcpConnection/EventLoop/RpcCodec below the message level (C01, C18)",
         "atomicity of the critical sections: MutexLockGuard scopes are taken as atomic steps (C08 covers the lock discipline)",
